@@ -19,7 +19,7 @@ type c08 struct{}
 func (c08) ID() string    { return "C08" }
 func (c08) Level() string { return "exploration" }
 func (c08) Rule() string {
-	return "shape: in each of the three full corpus documents EVERY scalar leaf in turn is replaced by ${V}, ${UNSET:-literal} and (strings) pre${V}post with the matching environment and the result compared with the literal document, the ${UNSET:-literal} form also delivered as an override file and as a later document after an include whose project has an env_file and a .env defining the variable differently; mapping keys containing ${V} stay literal; every document with $ doubled and interpolation on equals the document with interpolation off, also when the text lives in an override, an extended base, an included or nested-included file, or a second document. types: every typed position of the schema below services/networks/volumes/secrets/configs (boolean, integer, number; read from /repo/schema/compose-spec.json at run time) that admits a string, under three shapes of the user-defined name (plain, x-prefixed, dotted), plus duration and byte-size attributes, x valid texts (incl. YAML-1.1 booleans) x invalid texts: the variable form gives the literal's typed value while the same text at two untyped positions of the document (walked before and after) stays a string, an invalid text is an error naming the attribute. distinct = distinct (position, form) pairs"
+	return "shape: in each of the three full corpus documents and in the `wide` document (collections of 12..18 entries, typed attributes inside list items at positions 0..11) EVERY scalar leaf in turn is replaced by ${V}, ${UNSET:-literal} and (strings) pre${V}post with the matching environment and the result compared with the literal document, the ${UNSET:-literal} form also delivered as an override file and as a later document after an include whose project has an env_file and a .env defining the variable differently; mapping keys containing ${V} stay literal; every document with $ doubled and interpolation on equals the document with interpolation off, also when the text lives in an override, an extended base, an included or nested-included file, or a second document. types: every typed position of the schema below services/networks/volumes/secrets/configs (boolean, integer, number; read from /repo/schema/compose-spec.json at run time) that admits a string, under three shapes of the user-defined name (plain, x-prefixed, dotted), plus duration and byte-size attributes, x valid texts (incl. YAML-1.1 booleans) x invalid texts: the variable form gives the literal's typed value while the same text at two untyped positions of the document (walked before and after) stays a string, an invalid text is an error naming the attribute. distinct = distinct (position, form) pairs"
 }
 func (c08) Assumptions() []string {
 	return []string{
@@ -126,7 +126,7 @@ func (c08) Run(c *core.Ctx) {
 		return
 	}
 	corpus := CorpusScns()
-	for _, dn := range []string{"rich", "rich2", "rich3"} {
+	for _, dn := range []string{"rich", "rich2", "rich3", "wide"} {
 		base := corpus[dn]
 		// documents are parsed after the corpus's own variables were substituted, so every leaf is a literal
 		text := base.Files["compose.yaml"]
